@@ -25,7 +25,7 @@ import numpy as np
 from sim import oracles as orc
 from sim import workloads as wl
 from sim.core import Prng, Sim, Verdict, mix
-from sim.history import HistoryViolation, Recorder, run_machine
+from sim.history import HistoryViolation, Recorder, producer, run_machine, run_prng_producer
 
 PROP = "C16"
 ENGINE = "history+fakemp"
@@ -35,7 +35,7 @@ BATCH = 1
 CASE_TIMEOUT = 900.0
 SCHEDULED = False
 RULE = (
-    "cases = Hypothesis runs (one PRNG value each) of a stateful machine over ONE BoxRandoms instance with a "
+    "cases = seeded batches of histories (harness PRNG; a Hypothesis machine with the same rules is an optional producer) over ONE BoxRandoms instance with a "
     "drawn window (incl. both poles, thin strips, full sky), seed and attribute arrays.  Rules: gen(n), "
     "RandomReader.get_probe(n), full pass with chunk size c, pass abandoned after j chunks, "
     "Catalog.from_random(size, chunk, workers, patch mode) -- sequentially or, for workers > 1, under the "
@@ -207,12 +207,19 @@ class Model:
         self.root = root
         self.gen = _make_generator(case)
         self.ops: list = []
+        self.outcomes: list = []
         self.rec = rec or Recorder()
         self.ncat = 0
 
+    def close(self) -> None:
+        shutil.rmtree(self.root, ignore_errors=True)
+
     def apply(self, op: list) -> None:
         self.ops.append(list(op))
+        self.outcomes.append("started")
         getattr(self, "op_" + op[0])(*op[1:])
+        if self.outcomes[-1] == "started":
+            self.outcomes[-1] = "ok"
 
     def op_gen(self, n: int) -> None:
         chunk = self.gen(n)
@@ -327,8 +334,10 @@ class Model:
         except Exception as err:  # noqa: BLE001 - any library exception on fault-free input
             text = str(err) + " | " + " | ".join(writer_errors)
             if seeded_tc.degenerate:
+                self.outcomes[-1] = "refused:degenerate-centres"
                 return  # k-means produced a non-finite centre: degenerate input, any refusal is legal
             if "contains no data" in text and mode != "apply":
+                self.outcomes[-1] = "refused:empty-generated-centre"
                 return  # generated centre without objects: legal refusal (raised in the writer process)
             raise HistoryViolation(
                 dict(property=PROP, failing_rule="from_random", outcome="raises", exc=type(err).__name__),
@@ -361,6 +370,23 @@ class Model:
                 chunk[nm] = rows[:, i]
             _check_output(case, chunk, "from_random")
         shutil.rmtree(path, ignore_errors=True)
+
+
+def draw_op(prng) -> list:
+    """One rule application drawn from the harness PRNG (same distributions as the
+    Hypothesis machine below)."""
+    chunks = [1, 2, 3, 5, 7, 10, 16, 20, 64]
+    rule = prng.choice(["gen", "probe", "pass", "from_random"])
+    if rule == "gen":
+        return ["gen", prng.below(51)]
+    if rule == "probe":
+        return ["probe", prng.randint(1, 60), prng.randint(1, 60)]
+    if rule == "pass":
+        return ["pass", prng.randint(1, 60), prng.choice(chunks), None if prng.chance(1, 2) else prng.below(5)]
+    return [
+        "from_random", prng.randint(1, 80), None if prng.chance(1, 4) else prng.choice(chunks),
+        prng.choice([1, 1, 2, 3]), prng.choice(["apply", "apply", "create"]), prng.randint(1, 4), prng.below(1 << 20),
+    ]
 
 
 def _machine_factory(case: dict, root: str, rec: Recorder):
@@ -404,7 +430,7 @@ def _machine_factory(case: dict, root: str, rec: Recorder):
             self._do(["from_random", size, c, workers, mode, k, seed])
 
         def teardown(self):
-            rec.finish_example(self.model.ops)
+            rec.finish_example(self.model.ops, self.model.outcomes)
             shutil.rmtree(self.model.root, ignore_errors=True)
 
     return Machine
@@ -489,7 +515,7 @@ def run_case(case: dict) -> dict:
                     model.apply(op)
             except HistoryViolation as err:
                 violation = (list(model.ops), err)
-            rec.finish_example(model.ops)
+            rec.finish_example(model.ops, model.outcomes)
         else:
             if case.get("cross_process"):
                 rec.probe("cross_process_reproducibility")
@@ -505,13 +531,19 @@ def run_case(case: dict) -> dict:
                     verdict="violation", signature=dict(property=PROP, failing_rule="uniformity", outcome="not_uniform"),
                     detail=msg, digest="-", runs=1,
                 )
-            err = run_machine(lambda: _machine_factory(case, root, rec), case["hyp_seed"], case["max_examples"], case["steps"])
+            if producer() == "hypothesis":
+                err = run_machine(lambda: _machine_factory(case, root, rec), case["hyp_seed"], case["max_examples"], case["steps"])
+            else:
+                err = run_prng_producer(
+                    lambda: Model(case, tempfile.mkdtemp(prefix="ex-", dir=root), rec),
+                    draw_op, case["hyp_seed"], case["max_examples"], case["steps"], rec,
+                )
             if err is not None:
                 violation = rec.last_failure or ([], err)
         if os.environ.get("VERIF_DUMP_HISTORIES"):
             with open(os.path.join(os.environ["VERIF_DUMP_HISTORIES"], f"c16-{case['hyp_seed']}-{os.getpid()}.txt"), "w") as f:
                 f.write("\n".join(rec.all_ops))
-        digest = hashlib.sha256(("|".join(sorted(rec.shapes)) + str(rec.examples)).encode()).hexdigest()
+        digest = rec.digest()
         res = dict(
             verdict="ok" if violation is None else "violation",
             subs=[dict(digest=s, nontrivial=True, steps=0) for s in sorted(rec.shapes)]
